@@ -16,14 +16,16 @@ func init() {
 			"nor anywhere in the authenticator's call region (effect model: every callee is effect-free by list, resolved into the repo, or reported) — and the failure edge drains the connection before anything else; (SEARCH) the trial-decryption loop " +
 			"ranges over the whole snapshot and is left only when exhausted or on the success edge of Unpack, and the ciphertext prefix is sized with the salt/tag size of the very key being tried; (KEYBYTES) for every cipher spec of the SDK " +
 			"salt+2+tag <= bytesForKeyFinding <= salt+2+2*tag; (COHERENT) the returned id, reader/writer keys, salt generator, replay-history key and usage mark all derive from the one matched entry; (UPDATE) a key-list update replaces " +
-			"the list wholesale (snapshots of the old list stay detached).",
+			"the list wholesale (snapshots of the old list stay detached); (SNAPSHOT) the per-connection snapshot walks the whole guarded list in every loop and, by case analysis over the branch predicates of those loops, places every key exactly once whatever the last-client-IP state, into slices that reach the result; " +
+			"(RACEFREE) every field of the shared components the authentication region touches is immutable, guarded by one lock on all accesses, confined or write-once.",
 		NotDecided: "that AEAD trial decryption accepts exactly the right key (SDK + crypto), most-recently-used ordering effects on results, results of concurrent Update vs lookup (C19 covers the race part).",
 	})
 	register(&PropDef{ID: "C06", Level: "other", Run: runC06,
 		Explanation: "Probe resistance as control-flow facts on all paths: (SILENT) nothing is written/closed/dialed before authentication and the failure edge drains first; (DRAIN) each of the three failure points — authentication failure (all statuses, " +
 			"including both replay kinds), address-read failure, client-to-target copy error — drains the client connection itself (unbounded io.Copy to io.Discard) before any close; (DEADLINE) the only deadline set before authentication is computed from " +
 			"time.Now, the handler's timeout and the context deadline (never client data), no deadline is touched on the failure path, and the deadline is cleared only after authentication; (NORESET) no SetLinger anywhere; (FIXEDREAD) the key finder reads " +
-			"exactly bytesForKeyFinding bytes with io.ReadFull before deciding; (GATE) replayed and reflected handshakes take the same failure edge, unconditionally.",
+			"exactly bytesForKeyFinding bytes with io.ReadFull before deciding; (GATE) replayed and reflected handshakes take the same failure edge, unconditionally; " +
+			"(RACEFREE) the shared state read before authentication (key list, entries, replay history) obeys its lock discipline — a race there panics the handler, whose recover frame closes the connection at once instead of absorbing it.",
 		NotDecided: "that the close happens at the deadline within a time bound; FIN vs RST on the wire (kernel).",
 	})
 	register(&PropDef{ID: "C07", Level: "other", Run: runC07,
@@ -35,7 +37,7 @@ func init() {
 	register(&PropDef{ID: "C08", Level: "other", Run: runC08,
 		Explanation: "Server-salt marking structure: (SELECT) for the SDK's cipher specs the marking generator is selected exactly when saltSize - markLen >= minEntropy, i.e. saltSize >= 20; (CONSTRUCT) cipher entries are built only by MakeCipherEntry and their " +
 			"ID/key/generator never change; (INSTALL) every success return of the authenticator has installed the matched entry's generator on the response writer the returned connection writes through; (GATE) success is cut by IsServerSalt == false, the test is " +
-			"unconditional (not dependent on the replay cache) and precedes the replay history; (AGREE) GetSalt and IsServerSalt use the same split and tag helpers with the same mark length, and salt randomness comes from crypto/rand.",
+			"unconditional (not dependent on the replay cache) and precedes the replay history; (AGREE) GetSalt and IsServerSalt of the marking generator (found by role) go through one shared split helper and one shared tag helper, compare/copy exactly the first markLen bytes of the tag against the mark part, compute tags on per-call hash state, and salt randomness comes from crypto/rand.",
 		NotDecided: "pairwise salt uniqueness, HMAC unforgeability.",
 	})
 }
